@@ -252,11 +252,96 @@ impl Span {
     }
 }
 
-#[derive(Debug, Clone, PartialEq)]
+#[derive(Debug)]
 pub(crate) enum SpanInfo {
     Prim(Span),
     Cons(Span, Box<[SpanInfo; 2]>),
     Vec(Span, Vec<SpanInfo>),
+}
+
+// The span information of a list mirrors the shape of the list, i.e. it is a
+// chain linked through the second (`cdr`) element of `SpanInfo::Cons`. The
+// derived `Clone` and `PartialEq` implementations, as well as the compiler
+// generated drop glue, recurse along that chain and thus overflow the stack
+// for long lists. The implementations below iterate along the chain instead,
+// and only recurse into the first (`car`) element and into vector elements.
+
+impl SpanInfo {
+    fn detached(span: Span, car: SpanInfo) -> SpanInfo {
+        SpanInfo::Cons(span, Box::new([car, SpanInfo::Prim(Span::empty())]))
+    }
+}
+
+impl Clone for SpanInfo {
+    fn clone(&self) -> Self {
+        let (span, meta) = match self {
+            SpanInfo::Prim(span) => return SpanInfo::Prim(*span),
+            SpanInfo::Vec(span, elements) => return SpanInfo::Vec(*span, elements.clone()),
+            SpanInfo::Cons(span, meta) => (span, meta),
+        };
+        let mut head = SpanInfo::detached(*span, meta[0].clone());
+        let mut tail = &mut head;
+        let mut cursor = &meta[1];
+        loop {
+            let slot = match tail {
+                SpanInfo::Cons(_, meta) => &mut meta[1],
+                _ => unreachable!(),
+            };
+            match cursor {
+                SpanInfo::Cons(span, meta) => {
+                    *slot = SpanInfo::detached(*span, meta[0].clone());
+                    tail = slot;
+                    cursor = &meta[1];
+                }
+                SpanInfo::Prim(span) => {
+                    *slot = SpanInfo::Prim(*span);
+                    return head;
+                }
+                SpanInfo::Vec(span, elements) => {
+                    *slot = SpanInfo::Vec(*span, elements.clone());
+                    return head;
+                }
+            }
+        }
+    }
+}
+
+impl PartialEq for SpanInfo {
+    fn eq(&self, other: &SpanInfo) -> bool {
+        let mut lhs = self;
+        let mut rhs = other;
+        loop {
+            match (lhs, rhs) {
+                (SpanInfo::Prim(a), SpanInfo::Prim(b)) => return a == b,
+                (SpanInfo::Vec(a, a_elements), SpanInfo::Vec(b, b_elements)) => {
+                    return a == b && a_elements == b_elements
+                }
+                (SpanInfo::Cons(a, a_meta), SpanInfo::Cons(b, b_meta)) => {
+                    if a != b || a_meta[0] != b_meta[0] {
+                        return false;
+                    }
+                    lhs = &a_meta[1];
+                    rhs = &b_meta[1];
+                }
+                _ => return false,
+            }
+        }
+    }
+}
+
+impl Drop for SpanInfo {
+    fn drop(&mut self) {
+        let mut rest = match self {
+            SpanInfo::Cons(_, meta) => {
+                std::mem::replace(&mut meta[1], SpanInfo::Prim(Span::empty()))
+            }
+            _ => return,
+        };
+        while let SpanInfo::Cons(_, meta) = &mut rest {
+            let next = std::mem::replace(&mut meta[1], SpanInfo::Prim(Span::empty()));
+            rest = next;
+        }
+    }
 }
 
 impl SpanInfo {
